@@ -23,7 +23,7 @@ WorkerChecks(r) ==
     \cup (IF r.returned /\ ~r.errctx THEN {"WrongError"} ELSE {})
 
 Failures == {"sshd-eof", "audit-eof", "audit-malformed", "output-fails", "sshd-not-fifo", "sshd-missing",
-             "audit-not-fifo", "audit-missing", "bad-login-pid"}
+             "audit-not-fifo", "audit-missing", "bad-login-pid", "http-port-busy"}
 Signals == {"sigterm", "sigint"}
 
 DaemonChecks(r) ==
